@@ -141,7 +141,23 @@ pub fn run_case(ctx: &Ctx, st: &Setup, r: &mut Rng, nsteps: usize) -> (Tree, Tre
             Outcome::Ok => consecutive_err = 0,
         }
     }
-    (L(vec![state, L(envs)]), L(vec![L(obs), m.mem_diff()]))
+    (L(vec![state, L(envs)]), L(vec![L(obs), m.mem_diff(), m.mem_data_diff()]))
+}
+
+/// architectural projection of a `sim.run` output: per step (outcome pc psr ssp regs mcr devs), and
+/// the final memory diff on data only.  None when the run panicked.
+pub fn project(out: &Tree) -> Option<Tree> {
+    let l = out.as_l()?;
+    let steps = l[0].as_l()?;
+    let mut v = vec![];
+    for s in steps {
+        let f = s.as_l()?;
+        if f.len() < 13 { return None; }
+        let data = |w: &Tree| w.as_l().map(|x| x[0].clone());
+        let regs: Option<Vec<Tree>> = f[4].as_l()?.iter().map(data).collect();
+        v.push(L(vec![f[0].clone(), f[1].clone(), f[2].clone(), data(&f[3])?, L(regs?), f[9].clone(), f[11].clone()]));
+    }
+    Some(L(vec![L(v), l[2].clone()]))
 }
 
 pub fn run(ctx: &Ctx, _replay: Option<&str>) {
@@ -152,10 +168,16 @@ pub fn run(ctx: &Ctx, _replay: Option<&str>) {
         let mut r = root.fork(k as u64 + 1);
         let st = gen_setup(&mut r);
         let nsteps = 1 + r.below(60) as usize;
-        let (inp, out) = run_case(ctx, &st, &mut r, nsteps);
+        let (inp, out3) = run_case(ctx, &st, &mut r, nsteps);
+        let out = L(out3.as_l().unwrap()[..2].to_vec());
         let n = out.as_l().and_then(|l| l[0].as_l()).map(|l| l.len()).unwrap_or(0);
         steps_total.fetch_add(n as u64, std::sync::atomic::Ordering::Relaxed);
         ctx.case_to(k, "sim.run", &inp, &out);
+        // C08: the implementation against the REFERENCE semantics (spec/IsaSpec.v), architectural
+        // projection, non-strict runs only (strict mode is related to non-strict by C14)
+        if !st.strict {
+            if let Some(p) = project(&out3) { ctx.case_to(k, "isa.run", &inp, &p); }
+        }
         if k < 2 { ctx.sample(format!("sim.run {} -> {}", &inp.to_string()[..300.min(inp.to_string().len())], &out.to_string()[..300.min(out.to_string().len())])); }
     });
     ctx.stat("runs", runs as i64);
